@@ -16,6 +16,7 @@ import (
 	"io"
 	"os"
 	"os/exec"
+	"regexp"
 	"runtime"
 	"strings"
 	"sync"
@@ -97,6 +98,11 @@ func c13Pool(r *core.Rand) []c13Input {
 	extra = append(extra, c13Input{"image/svg+xml", []byte(`<svg xmlns="http://www.w3.org/2000/svg" contentStyleType="text/xsl"><style>rect { fill : #ff0000 }</style><rect width="10px"/></svg>`)},
 		c13Input{"image/svg+xml", []byte(`<svg xmlns="http://www.w3.org/2000/svg" contentStyleType="text/x"><style>rect { fill : #ff0000 }</style><style type="text/css">path { fill : #00ff00 }</style></svg>`)},
 		c13Input{"image/svg+xml", []byte(`<svg xmlns="http://www.w3.org/2000/svg" contentStyleType="application/x-stylesheet-language"><style>circle { fill : #0000ff }</style></svg>`)})
+	// empty inputs: a stream that is closed without a single Write must still wait for its minifier
+	for _, mt := range sixTypes {
+		extra = append(extra, c13Input{mt, []byte{}})
+	}
+	extra = append(extra, c13Input{"text/x-not-registered", []byte{}}, c13Input{"text/x-not-registered", []byte("x")})
 	pool = append(extra, pool...)
 	return pool
 }
@@ -174,7 +180,9 @@ func c13Op(m *minify.M, op int, in c13Input, shared []byte) (out []byte, es stri
 	case 4:
 		var b bytes.Buffer
 		w := m.Writer(in.mt, &b)
-		w.Write(in.data)
+		if len(in.data) > 0 { // (nothing to write: the stream is closed straight away)
+			w.Write(in.data)
+		}
 		err := w.Close()
 		if err != nil {
 			return nil, errStr(err)
@@ -203,6 +211,11 @@ func c13Marked(f func()) { f() }
 // blocking primitive with an unchanged stack in two dumps AND no other goroutine of the process running or runnable
 // (nothing is left that could ever wake them).  Slow progress is never a deadlock.
 func c13Await(done <-chan struct{}, progress *int64) string {
+	return awaitMarked(done, progress, "checks.c13Marked")
+}
+
+// awaitMarked: the same monitor for goroutines that run below the given marker frame.
+func awaitMarked(done <-chan struct{}, progress *int64, marker string) string {
 	last, still := int64(-1), 0
 	for {
 		select {
@@ -219,7 +232,7 @@ func c13Await(done <-chan struct{}, progress *int64) string {
 		if still < 3 {
 			continue
 		}
-		if ok, detail := blockedForever("checks.c13Marked"); ok && processQuiescent() {
+		if ok, detail := blockedForever(marker); ok && processQuiescent() {
 			return detail
 		}
 	}
@@ -302,6 +315,12 @@ func c13Workload(seed uint64, goroutines, opsPer int) (problems []string, ops in
 		}
 		mu.Unlock()
 	}
+	var empties []int
+	for i := range pool {
+		if len(pool[i].data) == 0 {
+			empties = append(empties, i)
+		}
+	}
 	var wg sync.WaitGroup
 	var n int64
 	for g := 0; g < goroutines; g++ {
@@ -317,6 +336,9 @@ func c13Workload(seed uint64, goroutines, opsPer int) (problems []string, ops in
 					i = len(pool) - 169 + rr.Intn(9) // the nine hand-written re-entrant documents sit right before the 160 generated ones
 				}
 				op := rr.Intn(8)
+				if len(empties) > 0 && rr.Chance(1, 10) {
+					i, op = empties[rr.Intn(len(empties))], 4 // a stream closed without a Write
+				}
 				out, es := c13Op(m, op, pool[i], shared[i])
 				atomic.AddInt64(&n, 1)
 				if strings.HasPrefix(es, "FAILW:") {
@@ -434,6 +456,55 @@ func c13Probe() string {
 	return ""
 }
 
+// c13ReRegisterProbe: a registry that has served calls - among them documents whose embedded content asks for
+// types nothing is registered for - is quiescent; one more registration (not concurrent with any call) and the
+// calls after it must go through: a call that left something locked behind would block them for ever.
+func c13ReRegisterProbe() string {
+	m := newM(c13Opts())
+	docs := []c13Input{
+		{"text/html", []byte(`<!doctype html><title>t</title><p>a <math><mi>x</mi></math> b</p><script type="text/x-unknown">keep  this</script><style type="text/x-unknown">keep  this</style>`)},
+		{"image/svg+xml", []byte(`<svg xmlns="http://www.w3.org/2000/svg"><style type="text/x-unknown">a { b : c }</style><rect width="1"/></svg>`)},
+		{"text/css", []byte(`a{background:url("data:text/x-unknown,payload%20here")}`)},
+		{"text/x-not-registered", []byte("whatever")},
+	}
+	var prog int64
+	done := make(chan struct{})
+	var problem string
+	go c13ProbeMarker(func() {
+		defer close(done)
+		first := make([][]byte, len(docs))
+		for i, d := range docs {
+			first[i], _ = m.Bytes(d.mt, append([]byte{}, d.data...))
+			m.Match(d.mt)
+			atomic.AddInt64(&prog, 1)
+		}
+		m.AddFunc("text/x-later", func(_ *minify.M, w io.Writer, r io.Reader, _ map[string]string) error {
+			_, err := io.Copy(w, r)
+			return err
+		})
+		atomic.AddInt64(&prog, 1)
+		m.AddFuncRegexp(regexp.MustCompile("^text/x-later2$"), func(_ *minify.M, w io.Writer, r io.Reader, _ map[string]string) error {
+			_, err := io.Copy(w, r)
+			return err
+		})
+		atomic.AddInt64(&prog, 1)
+		for i, d := range docs {
+			again, _ := m.Bytes(d.mt, append([]byte{}, d.data...))
+			if !bytes.Equal(again, first[i]) {
+				problem = fmt.Sprintf("%s: bytes after a later registration differ from the bytes before it", d.mt)
+			}
+			atomic.AddInt64(&prog, 1)
+		}
+		if out, err := m.String("text/x-later", "x  y"); err != nil || out != "x  y" {
+			problem = fmt.Sprintf("the minifier registered later is not used: %q %v", out, err)
+		}
+	})
+	if d := awaitMarked(done, &prog, "checks.c13ProbeMarker"); d != "" {
+		return "a registration made after the registry had served calls (none of them still running) blocks for ever - an earlier call left the registry locked:\n" + core.Trunc(d, 3000)
+	}
+	return problem
+}
+
 // c13StreamProbe: while a streaming call (M.Writer) of the real minifiers is open and waiting for more input, calls
 // for every media type must complete; the stream then finishes with the sequential bytes.
 func c13StreamProbe() string {
@@ -528,6 +599,12 @@ func C13(run *core.Run) {
 		default:
 			run.Violation(core.Key("probe", []byte(s)), s, map[string]string{"problem": s})
 		}
+	}
+	run.Eval()
+	if s := c13ReRegisterProbe(); s != "" {
+		run.Violation(core.Key("probe", []byte(core.Trunc(s, 200))), s, map[string]string{"problem": s})
+	} else {
+		run.NonTrivial([]byte("re-registration probe"))
 	}
 	for i := 0; i < 2; i++ {
 		run.Eval()
